@@ -356,6 +356,8 @@ SeqCode ==
 NumFound  == Len(prev) + 1
 NumPassed == Cardinality({k \in 1..Len(prev) : prev[k] = 0}) + (IF code = 0 THEN 1 ELSE 0)
 
+EmitRecords == RecordHist    \* (Trace_Verdict overrides it: no scenario records while validating traces)
+
 JRec(px) == [arms |-> arms, fl |-> fl, prev |-> prev, hist |-> hist, outputs |-> outputs,
              stuck |-> {j - 1 : j \in stuck}, normal |-> normal, raised |-> raised, shutdown |-> shutdown,
              code |-> code, pexit |-> px, seqcode |-> SeqCode, required |-> Required(arms),
@@ -365,7 +367,7 @@ ExitCode ==
     /\ mpc = "exit"
     /\ pexit' = IF NumFound - NumPassed = 0 THEN 0 ELSE 1
     /\ mpc' = "done"
-    /\ RecordHist => PrintT("JREC" \o ToJson(JRec(pexit')))
+    /\ EmitRecords => PrintT("JREC" \o ToJson(JRec(pexit')))
     /\ UNCHANGED <<arms, fl, prev, i, qs, shutdown, sharedcore, outputs, normal, stuck, raised, code, hist, lock>>
 
 Next ==
